@@ -14,6 +14,11 @@ func Parse(text string) (*template.Template, error) {
 	return template.New("main").VerifParse(text)
 }
 
+// ParseFuncs is Parse with a function map registered first.
+func ParseFuncs(text string, funcs template.FuncMap) (*template.Template, error) {
+	return template.New("main").Funcs(funcs).VerifParse(text)
+}
+
 // Exec executes t with data into a string.
 func Exec(t *template.Template, data interface{}) (string, error) {
 	var b bytes.Buffer
